@@ -255,6 +255,9 @@ func (e *Expr) render(l *Layout) {
 	switch e.Kind {
 	case "direct":
 		l.w("[")
+		if len(e.Restr) == 0 && e.Name == "space" {
+			l.w(" ")
+		}
 		multi := l.Wild && l.pick(4) == 0
 		for i, rs := range e.Restr {
 			if i > 0 {
